@@ -11,8 +11,8 @@ import (
 	"database/sql/driver"
 	"encoding/json"
 	"fmt"
-	"os"
 	"math/rand"
+	"os"
 	"reflect"
 	"strings"
 	"testing"
@@ -75,6 +75,9 @@ func buildZoo() (*zoo, error) {
 			s.jsonTag = d.Tags.Contains("json")
 			s.rawJSON = d.Type == rawJSONType
 			s.binaryTag = d.Tags.Contains("binary")
+			s.stringTag = d.Tags.Contains("string")
+			s.isValuer = isValuer
+			s.implNull = d.Tags.Contains("implicitnull")
 			ti.specs = append(ti.specs, s)
 		}
 		// The database's column order differs from the struct's and has one column
@@ -95,6 +98,15 @@ func buildZoo() (*zoo, error) {
 		z.byName[td.name] = ti
 	}
 	return z, nil
+}
+
+func (ti *tableInfo) specByName(name string) *colSpec {
+	for _, s := range ti.specs {
+		if s.name == name {
+			return s
+		}
+	}
+	return nil
 }
 
 // genRow builds a pointer to a freshly generated struct of the table's type.
@@ -386,6 +398,8 @@ func checkCase(run *vlib.Run, z *zoo, env *env, i int) {
 		}
 		c.decodeAndCompare(p, "BuildStruct", row, choices, func() (interface{}, error) {
 			return z.schema.BuildStruct(ti.name, row)
+		}, func(alt []driver.Value) (interface{}, error) {
+			return z.schema.BuildStruct(ti.name, alt)
 		})
 	}
 
@@ -406,7 +420,7 @@ func checkCase(run *vlib.Run, z *zoo, env *env, i int) {
 }
 
 // decodeAndCompare runs one decoder over one source row and compares with x.
-func (c *caseCtx) decodeAndCompare(p profile, via string, row []driver.Value, choices []colChoice, dec func() (interface{}, error)) {
+func (c *caseCtx) decodeAndCompare(p profile, via string, row []driver.Value, choices []colChoice, dec func() (interface{}, error), dec2 func([]driver.Value) (interface{}, error)) {
 	c.run.Count("decode:"+via+":"+p.String(), 1)
 	var y interface{}
 	var err error
@@ -415,7 +429,20 @@ func (c *caseCtx) decodeAndCompare(p profile, via string, row []driver.Value, ch
 		return
 	}
 	if err != nil {
-		c.violate(classifyDecodeError(c, row, err), c.wit(map[string]interface{}{"what": via + " failed to decode a form the source produces", "profile": p.String(),
+		class := ""
+		// Recognise the binary-tag/string-source defect: the only obstacle is that a
+		// `binary` column arrived as a Go string (binlog form of VARBINARY/BINARY).
+		if alt, changed := c.altBinaryRow(row); changed && dec2 != nil {
+			var y2 interface{}
+			var err2 error
+			if pn := safely(func() { y2, err2 = dec2(alt) }); pn == nil && err2 == nil {
+				if yv := reflect.ValueOf(y2); yv.Kind() == reflect.Ptr && !yv.IsNil() && yv.Elem().Type() == c.ti.typ &&
+					c.ti.equal(c.x.Elem(), yv.Elem(), p == pBinlog) == "" {
+					class = "binary-tag-string-source"
+				}
+			}
+		}
+		c.violate(class, c.wit(map[string]interface{}{"what": via + " failed to decode a form the source produces", "profile": p.String(),
 			"source_row": showRow(c.names, row), "choices": fmt.Sprint(choices), "err": err.Error()}))
 		return
 	}
@@ -430,9 +457,17 @@ func (c *caseCtx) decodeAndCompare(p profile, via string, row []driver.Value, ch
 	}
 }
 
-// classifyDecodeError gives stable classifier keys to recognised defects.
-func classifyDecodeError(c *caseCtx, row []driver.Value, err error) string {
-	return ""
+// altBinaryRow replaces Go strings in `binary`-tagged columns by []byte.
+func (c *caseCtx) altBinaryRow(row []driver.Value) ([]driver.Value, bool) {
+	alt := append([]driver.Value{}, row...)
+	changed := false
+	for k, s := range c.ti.specs {
+		if str, ok := row[k].(string); ok && s.binaryTag {
+			alt[k] = []byte(str)
+			changed = true
+		}
+	}
+	return alt, changed
 }
 
 func (c *caseCtx) checkTester() {
